@@ -42,4 +42,24 @@ def opErrorCase (j : Json) : Json :=
       ("client_spec", Json.str (clientErrName (specClientErr (impl.status == .s400) impl.body)))]
   | _, _ => Json.mkObj [("driver_err", Json.str "unknown source or hook")]
 
+def tsSrvSourceOfName : String → Option TsSrvSource
+  | "header_violation" => some .headerViolation
+  | "request_violation" => some .requestViolation
+  | "handler_validation" => some .handlerValidation
+  | "handler_error" => some .handlerError
+  | _ => none
+
+def tsSrvAnswerName : TsSrvAnswer → String
+  | .violations400 => "violations_400"
+  | .hookResponse => "hook_response"
+  | .message500 => "message_500"
+
+/-- `ts_server_error`: how a route of the emitted TS server answers an error, model and contract. -/
+def opTsServerError (j : Json) : Json :=
+  match tsSrvSourceOfName (String.ofList (getStr j "src")) with
+  | some s =>
+    Json.mkObj [("impl", Json.str (tsSrvAnswerName (tsServerAnswer s (getBool j "hook_answers")))),
+      ("spec", Json.str (tsSrvAnswerName (specTsServerAnswer s (getBool j "hook_answers"))))]
+  | none => Json.mkObj [("driver_err", Json.str "unknown source")]
+
 end Sebuf.Driver
